@@ -245,9 +245,10 @@ def element_src(E, cell="cell") -> str:
     if k == "tp":
         # tensor-product factorised Lagrange element as in test/test_tensor_product.py
         deg = int(E[1])
+        variant = E[3] if len(E) > 3 and E[3] else "gll_warped"
         inner = (
             f"basix.ufl.wrap_element(basix.create_tp_element(basix.ElementFamily.P, "
-            f"basix.CellType[{cell}], {deg}, basix.LagrangeVariant.gll_warped))"
+            f"basix.CellType[{cell}], {deg}, basix.LagrangeVariant.{variant}))"
         )
         if E[2]:
             sh = "(" + "".join(f"{int(s)}, " for s in E[2]) + ")"
